@@ -2,7 +2,7 @@
 # usage: verify_seed.sh <Cxx> <a|b>   -- confirm a sub-agent's seeded change in a scratch worktree of /repo HEAD
 set -u
 ID=$1; X=$2
-SRC=/tmp/seedwork/$ID/out/$X
+SRC=${SEEDROOT:-/tmp/seedwork}/$ID/out/$X
 WT=$(mktemp -d /tmp/vseed.XXXXXX)
 git -C /repo worktree add --detach $WT HEAD >/dev/null 2>&1 || { echo "worktree failed"; exit 3; }
 cd $WT
@@ -14,10 +14,10 @@ cd /
 git -C /repo worktree remove --force $WT
 echo "RESULT $ID $X clean_rc=$RC_CLEAN patched_rc=$RC_PAT suite=[$SUITE]"
 if [ $RC_CLEAN -eq 0 ] && [ $RC_PAT -eq 1 ] && echo "$SUITE" | grep -q "307 passed"; then
-  mkdir -p /verif/seeded/${ID}_$X
-  cp $SRC/patch.diff $SRC/demo.py /verif/seeded/${ID}_$X/
-  cp $SRC/meta.json /verif/seeded/${ID}_$X/agent_meta.json
-  echo "KEPT /verif/seeded/${ID}_$X"
+  DEST=/verif/seeded/${ID}_${DESTX:-$X}; mkdir -p $DEST
+  cp $SRC/patch.diff $SRC/demo.py $DEST/
+  cp $SRC/meta.json $DEST/agent_meta.json
+  echo "KEPT $DEST"
 else
   echo "REJECTED"
 fi
